@@ -1,8 +1,15 @@
 #!/usr/bin/env python3
 """Translator: etk-asm/src/parse/asm.pest, read by pest's own meta parser
 (`etk-h dump-grammar`, pest_meta 2.1.3), rendered as Lean data for the generic
-pest interpreter (EtkVerif/Asm/Pest.lean).  Rules are numbered in file order;
-built-in rules have fixed ids >= 1000 (EtkVerif/Asm/PestTypes.lean)."""
+pest interpreter (EtkVerif/Asm/Pest.lean).  Built-in rules have fixed ids >= 1000
+(EtkVerif/Asm/PestTypes.lean).
+
+Normalisation (semantics preserving): the rules named in tools/grammar_rules.txt (the rule set the proofs were written
+against) are numbered in that order; a rule that is NOT in that list and is silent (`_{ }`), non-recursive and not
+WHITESPACE / COMMENT is INLINED at its uses and dropped — a silent rule emits no token and inherits the atomicity of its
+caller, so `callRule` on it is `matchE` on its body (sequence / choice chains are re-associated to the left afterwards); any other new rule is appended after the known ones.  A helper rule
+introduced by a refactoring of the grammar therefore leaves the generated value unchanged, while every change of what
+the grammar accepts or emits still shows."""
 import subprocess, sys, os, re
 
 BUILTIN = {"SOI": 1000, "EOI": 1001, "ANY": 1002, "NEWLINE": 1003, "ASCII_DIGIT": 1004, "ASCII_BIN_DIGIT": 1005,
@@ -48,6 +55,77 @@ def render(e, ids):
     raise SystemExit(f"grammar uses a pest construct the interpreter does not model: {head}")
 
 
+def idents(e):
+    head, a = e
+    if head == "ident":
+        return {a[0]}
+    out = set()
+    for x in a:
+        if isinstance(x, tuple):
+            out |= idents(x)
+    return out
+
+
+def subst(e, name, body):
+    head, a = e
+    if head == "ident":
+        return body if a[0] == name else e
+    return (head, [subst(x, name, body) if isinstance(x, tuple) else x for x in a])
+
+
+def unparse(e):
+    head, a = e
+    return "(" + head + "".join(" " + (unparse(x) if isinstance(x, tuple) else x) for x in a) + ")"
+
+
+def reassoc(e):
+    """`a ~ (b ~ c)` and `(a ~ b) ~ c` (likewise `|`) are the same matcher — element, implicit skip, element, … — so chains
+    are put in the left-nested form pest_meta gives a flat `a ~ b ~ c`"""
+    head, a = e
+    a = [reassoc(x) if isinstance(x, tuple) else x for x in a]
+    if head in ("seq", "choice"):
+        def flat(x):
+            return flat(x[1][0]) + flat(x[1][1]) if isinstance(x, tuple) and x[0] == head else [x]
+        items = flat((head, a))
+        acc = items[0]
+        for it in items[1:]:
+            acc = (head, [acc, it])
+        return acc
+    return (head, a)
+
+
+def normalise(rules):
+    base_path = os.path.join(os.path.dirname(os.path.abspath(__file__)), "grammar_rules.txt")
+    known = [l.strip() for l in open(base_path) if l.strip() and not l.startswith("#")] if os.path.exists(base_path) else []
+    parsed = {n: (ty, parse(tokenize(sx), 0)[0]) for n, ty, sx in rules}
+    order = [n for n, _, _ in rules]
+
+    def reaches_self(n):
+        seen, todo = set(), list(idents(parsed[n][1]))
+        while todo:
+            m = todo.pop()
+            if m == n:
+                return True
+            if m in seen or m not in parsed:
+                continue
+            seen.add(m)
+            todo += list(idents(parsed[m][1]))
+        return False
+    inlined = []
+    for n in list(order):
+        ty, body = parsed[n]
+        if n in known or ty != "silent" or n in ("WHITESPACE", "COMMENT") or reaches_self(n):
+            continue
+        for m in parsed:
+            if m != n:
+                parsed[m] = (parsed[m][0], subst(parsed[m][1], n, body))
+        inlined.append(n)
+        del parsed[n]
+        order.remove(n)
+    final = [n for n in known if n in parsed] + [n for n in order if n not in known]
+    return [(n, parsed[n][0], unparse(reassoc(parsed[n][1]) if inlined else parsed[n][1])) for n in final], inlined
+
+
 def main():
     exe, dest, pest = sys.argv[1], sys.argv[2], sys.argv[3]
     dump = subprocess.run([exe, "dump-grammar", pest], check=True, capture_output=True, text=True).stdout
@@ -57,9 +135,13 @@ def main():
             continue
         _, name, ty, sexpr = line.split(" ", 3)
         rules.append((name, ty, sexpr))
+    rules, inlined = normalise(rules)
     ids = {n: i for i, (n, _, _) in enumerate(rules)}
     out = ["-- GENERATED by tools/gen_grammar.py from etk-asm/src/parse/asm.pest through `etk-h dump-grammar` (pest_meta). Do not edit.",
            "import EtkVerif.Asm.PestTypes", "namespace EtkVerif.Gen", "open EtkVerif.Pest", ""]
+    if inlined:
+        # reported on stdout (and from there in the evidence), not in the generated file: its content stays byte-identical
+        print("normalised: silent helper rules inlined:", ", ".join(inlined))
     for n, i in ids.items():
         out.append(f"def R_{n} : Nat := {i}")
     out.append("")
